@@ -262,3 +262,57 @@ def share(rep, producer, new_rule: str, keep, description: str | None = None):
     if not kept:
         raise AnalysisError(f"{new_rule}: the shared rule produced no obligation")
     return len(kept)
+
+
+# ---------------------------------------------------------------- forward substitution of straight-line updates
+def compose_update(stmts, var: str):
+    """The value `var` has after the straight-line statements `stmts`, as ONE expression over the values before them:
+    `x += 1; x <<= 7; x += b & 127`  and  `x = ((x + 1) << 7) + (b & 127)`  both give  `((x + 1) << 7) + (b & 127)`.
+    Only plain and augmented assignments to names are composed; returns None when something else writes `var`."""
+    import copy
+    env: dict[str, ast.AST] = {}
+
+    class Sub(ast.NodeTransformer):
+        def visit_Name(self, node):
+            if isinstance(node.ctx, ast.Load) and node.id in env:
+                return copy.deepcopy(env[node.id])
+            return node
+    for s in stmts:
+        if isinstance(s, ast.AugAssign) and isinstance(s.target, ast.Name):
+            old = env.get(s.target.id, ast.Name(id=s.target.id, ctx=ast.Load()))
+            env[s.target.id] = ast.BinOp(left=copy.deepcopy(old), op=s.op, right=Sub().visit(copy.deepcopy(s.value)))
+        elif isinstance(s, ast.Assign) and len(s.targets) == 1 and isinstance(s.targets[0], ast.Name):
+            env[s.targets[0].id] = Sub().visit(copy.deepcopy(s.value))
+        elif isinstance(s, (ast.Expr, ast.Assert, ast.Pass)):
+            continue
+        else:
+            if any(isinstance(x, ast.Name) and x.id == var and isinstance(x.ctx, ast.Store) for x in ast.walk(s)):
+                return None
+    return env.get(var)
+
+
+def expr_key(e: ast.AST, folder=None) -> str:
+    """A canonical text of an arithmetic expression: constants folded, operands of + | & ^ * ordered."""
+    if e is None:
+        return "?"
+    if folder is not None:
+        v = folder.try_fold(e)
+        if isinstance(v, (int, bytes)) and not isinstance(v, bool):
+            return repr(v)
+    if isinstance(e, ast.Constant):
+        return repr(e.value)
+    if isinstance(e, ast.BinOp):
+        l, r = expr_key(e.left, folder), expr_key(e.right, folder)
+        op = type(e.op).__name__
+        if isinstance(e.op, (ast.Add, ast.BitOr, ast.BitAnd, ast.BitXor, ast.Mult)):
+            # flatten same-operator chains and sort
+            def flat(x):
+                if isinstance(x, ast.BinOp) and type(x.op) is type(e.op):
+                    return flat(x.left) + flat(x.right)
+                return [expr_key(x, folder)]
+            return f"{op}(" + ",".join(sorted(flat(e))) + ")"
+        return f"{op}({l},{r})"
+    if isinstance(e, ast.UnaryOp):
+        return f"{type(e.op).__name__}({expr_key(e.operand, folder)})"
+    from sa.load import norm as _norm
+    return _norm(e)
